@@ -123,6 +123,7 @@ type graphMemoizer struct {
 	g storage.Graph
 
 	mu   sync.RWMutex
+	gen  uint64 // incremented by every reset; results read under an older value are not memoized
 	memN map[string][]*node.Node
 	memP map[string][]*predicate.Predicate
 	memO map[string][]*triple.Object
@@ -138,30 +139,32 @@ func (g *graphMemoizer) ID(ctx context.Context) string {
 // AddTriples adds the triples to the storage. Adding a triple that already
 // exists should not fail.
 func (g *graphMemoizer) AddTriples(ctx context.Context, ts []*triple.Triple) error {
+	// Update operations reset the memoization, before and after the update: a
+	// lookup that overlaps the update may have read the old state.
+	g.reset()
+	defer g.reset()
+	return g.g.AddTriples(ctx, ts)
+}
+
+// reset drops all the memoized results.
+func (g *graphMemoizer) reset() {
 	g.mu.Lock()
-	// Update operations reset the memoization.
+	g.gen++
 	g.memN = make(map[string][]*node.Node)
 	g.memP = make(map[string][]*predicate.Predicate)
 	g.memO = make(map[string][]*triple.Object)
 	g.memT = make(map[string][]*triple.Triple)
 	g.memE = make(map[string]bool)
 	g.mu.Unlock()
-
-	return g.g.AddTriples(ctx, ts)
 }
 
 // RemoveTriples removes the triples from the storage. Removing triples that
 // are not present on the store should not fail.
 func (g *graphMemoizer) RemoveTriples(ctx context.Context, ts []*triple.Triple) error {
-	g.mu.Lock()
-	// Update operations reset the memoization.
-	g.memN = make(map[string][]*node.Node)
-	g.memP = make(map[string][]*predicate.Predicate)
-	g.memO = make(map[string][]*triple.Object)
-	g.memT = make(map[string][]*triple.Triple)
-	g.memE = make(map[string]bool)
-	g.mu.Unlock()
-
+	// Update operations reset the memoization, before and after the update: a
+	// lookup that overlaps the update may have read the old state.
+	g.reset()
+	defer g.reset()
 	return g.g.RemoveTriples(ctx, ts)
 }
 
@@ -195,6 +198,7 @@ func (g *graphMemoizer) Objects(ctx context.Context, s *node.Node, p *predicate.
 	k := combinedUUID("Objects", lo, s.UUID(), p.UUID())
 	g.mu.RLock()
 	v := g.memO[k]
+	gen := g.gen
 	g.mu.RUnlock()
 	if v != nil {
 		// Return the memoized results.
@@ -236,7 +240,9 @@ func (g *graphMemoizer) Objects(ctx context.Context, s *node.Node, p *predicate.
 	}
 	wg.Wait()
 	g.mu.Lock()
-	g.memO[k] = mobjs
+	if g.gen == gen {
+		g.memO[k] = mobjs
+	}
 	g.mu.Unlock()
 	return err
 }
@@ -264,6 +270,7 @@ func (g *graphMemoizer) Subjects(ctx context.Context, p *predicate.Predicate, o 
 	k := combinedUUID("Subjects", lo, p.UUID(), o.UUID())
 	g.mu.RLock()
 	v := g.memN[k]
+	gen := g.gen
 	g.mu.RUnlock()
 	if v != nil {
 		// Return the memoized results.
@@ -305,7 +312,9 @@ func (g *graphMemoizer) Subjects(ctx context.Context, p *predicate.Predicate, o 
 	}
 	wg.Wait()
 	g.mu.Lock()
-	g.memN[k] = msubs
+	if g.gen == gen {
+		g.memN[k] = msubs
+	}
 	g.mu.Unlock()
 	return err
 }
@@ -323,6 +332,7 @@ func (g *graphMemoizer) PredicatesForSubject(ctx context.Context, s *node.Node, 
 	k := combinedUUID("PredicatesForSubject", lo, s.UUID())
 	g.mu.RLock()
 	v := g.memP[k]
+	gen := g.gen
 	g.mu.RUnlock()
 	if v != nil {
 		// Return the memoized results.
@@ -364,7 +374,9 @@ func (g *graphMemoizer) PredicatesForSubject(ctx context.Context, s *node.Node, 
 	}
 	wg.Wait()
 	g.mu.Lock()
-	g.memP[k] = mpreds
+	if g.gen == gen {
+		g.memP[k] = mpreds
+	}
 	g.mu.Unlock()
 	return err
 }
@@ -382,6 +394,7 @@ func (g *graphMemoizer) PredicatesForObject(ctx context.Context, o *triple.Objec
 	k := combinedUUID("PredicatesForObject", lo, o.UUID())
 	g.mu.RLock()
 	v := g.memP[k]
+	gen := g.gen
 	g.mu.RUnlock()
 	if v != nil {
 		// Return the memoized results.
@@ -423,7 +436,9 @@ func (g *graphMemoizer) PredicatesForObject(ctx context.Context, o *triple.Objec
 	}
 	wg.Wait()
 	g.mu.Lock()
-	g.memP[k] = mpreds
+	if g.gen == gen {
+		g.memP[k] = mpreds
+	}
 	g.mu.Unlock()
 	return err
 }
@@ -441,6 +456,7 @@ func (g *graphMemoizer) PredicatesForSubjectAndObject(ctx context.Context, s *no
 	k := combinedUUID("PredicatesForSubjectAndObject", lo, s.UUID(), o.UUID())
 	g.mu.RLock()
 	v := g.memP[k]
+	gen := g.gen
 	g.mu.RUnlock()
 	if v != nil {
 		// Return the memoized results.
@@ -482,7 +498,9 @@ func (g *graphMemoizer) PredicatesForSubjectAndObject(ctx context.Context, s *no
 	}
 	wg.Wait()
 	g.mu.Lock()
-	g.memP[k] = mpreds
+	if g.gen == gen {
+		g.memP[k] = mpreds
+	}
 	g.mu.Unlock()
 	return err
 }
@@ -500,6 +518,7 @@ func (g *graphMemoizer) TriplesForSubject(ctx context.Context, s *node.Node, lo 
 	k := combinedUUID("TriplesForSubject", lo, s.UUID())
 	g.mu.RLock()
 	v := g.memT[k]
+	gen := g.gen
 	g.mu.RUnlock()
 	if v != nil {
 		// Return the memoized results.
@@ -541,7 +560,9 @@ func (g *graphMemoizer) TriplesForSubject(ctx context.Context, s *node.Node, lo 
 	}
 	wg.Wait()
 	g.mu.Lock()
-	g.memT[k] = mts
+	if g.gen == gen {
+		g.memT[k] = mts
+	}
 	g.mu.Unlock()
 	return err
 }
@@ -559,6 +580,7 @@ func (g *graphMemoizer) TriplesForPredicate(ctx context.Context, p *predicate.Pr
 	k := combinedUUID("TriplesForPredicate", lo, p.UUID())
 	g.mu.RLock()
 	v := g.memT[k]
+	gen := g.gen
 	g.mu.RUnlock()
 	if v != nil {
 		// Return the memoized results.
@@ -600,7 +622,9 @@ func (g *graphMemoizer) TriplesForPredicate(ctx context.Context, p *predicate.Pr
 	}
 	wg.Wait()
 	g.mu.Lock()
-	g.memT[k] = mts
+	if g.gen == gen {
+		g.memT[k] = mts
+	}
 	g.mu.Unlock()
 	return err
 }
@@ -618,6 +642,7 @@ func (g *graphMemoizer) TriplesForObject(ctx context.Context, o *triple.Object, 
 	k := combinedUUID("TriplesForObject", lo, o.UUID())
 	g.mu.RLock()
 	v := g.memT[k]
+	gen := g.gen
 	g.mu.RUnlock()
 	if v != nil {
 		// Return the memoized results.
@@ -659,7 +684,9 @@ func (g *graphMemoizer) TriplesForObject(ctx context.Context, o *triple.Object, 
 	}
 	wg.Wait()
 	g.mu.Lock()
-	g.memT[k] = mts
+	if g.gen == gen {
+		g.memT[k] = mts
+	}
 	g.mu.Unlock()
 	return err
 }
@@ -677,6 +704,7 @@ func (g *graphMemoizer) TriplesForSubjectAndPredicate(ctx context.Context, s *no
 	k := combinedUUID("TriplesForSubjectAndPredicate", lo, s.UUID(), p.UUID())
 	g.mu.RLock()
 	v := g.memT[k]
+	gen := g.gen
 	g.mu.RUnlock()
 	if v != nil {
 		// Return the memoized results.
@@ -718,7 +746,9 @@ func (g *graphMemoizer) TriplesForSubjectAndPredicate(ctx context.Context, s *no
 	}
 	wg.Wait()
 	g.mu.Lock()
-	g.memT[k] = mts
+	if g.gen == gen {
+		g.memT[k] = mts
+	}
 	g.mu.Unlock()
 	return err
 }
@@ -736,6 +766,7 @@ func (g *graphMemoizer) TriplesForPredicateAndObject(ctx context.Context, p *pre
 	k := combinedUUID("TriplesForPredicateAndObject", lo, p.UUID(), o.UUID())
 	g.mu.RLock()
 	v := g.memT[k]
+	gen := g.gen
 	g.mu.RUnlock()
 	if v != nil {
 		// Return the memoized results.
@@ -777,7 +808,9 @@ func (g *graphMemoizer) TriplesForPredicateAndObject(ctx context.Context, p *pre
 	}
 	wg.Wait()
 	g.mu.Lock()
-	g.memT[k] = mts
+	if g.gen == gen {
+		g.memT[k] = mts
+	}
 	g.mu.Unlock()
 	return err
 }
@@ -787,6 +820,7 @@ func (g *graphMemoizer) Exist(ctx context.Context, t *triple.Triple) (bool, erro
 	k := combinedUUID("Exist", storage.DefaultLookup, t.UUID())
 	g.mu.RLock()
 	v, ok := g.memE[k]
+	gen := g.gen
 	g.mu.RUnlock()
 	if ok {
 		// Return the memoized results.
@@ -797,7 +831,9 @@ func (g *graphMemoizer) Exist(ctx context.Context, t *triple.Triple) (bool, erro
 	b, err := g.g.Exist(ctx, t)
 	if err == nil {
 		g.mu.Lock()
-		g.memE[k] = b
+		if g.gen == gen {
+			g.memE[k] = b
+		}
 		g.mu.Unlock()
 	}
 	return b, err
@@ -810,6 +846,7 @@ func (g *graphMemoizer) Triples(ctx context.Context, lo *storage.LookupOptions, 
 	k := combinedUUID("Triples", lo)
 	g.mu.RLock()
 	v := g.memT[k]
+	gen := g.gen
 	g.mu.RUnlock()
 	if v != nil {
 		// Return the memoized results.
@@ -851,7 +888,9 @@ func (g *graphMemoizer) Triples(ctx context.Context, lo *storage.LookupOptions, 
 	}
 	wg.Wait()
 	g.mu.Lock()
-	g.memT[k] = mts
+	if g.gen == gen {
+		g.memT[k] = mts
+	}
 	g.mu.Unlock()
 	return err
 }
